@@ -411,6 +411,7 @@ class RecStub:
         self.log = []
         self.returned = []
         self.quiet = False
+        self.k = 1.0            # "another database": scales the energies / kinetic coefficients the value functions return
 
     def _ret(self, value):
         self.returned.append(value)
@@ -446,17 +447,17 @@ class RecStub:
     def v_df(self, x, T, ph):
         if self.numElements == 2:
             xb, A, Q = PREC[ph]
-            dg = R_GAS * T * xb * np.log(x[:, 0] / (A * np.exp(-Q / (R_GAS * T))))
+            dg = self.k * R_GAS * T * xb * np.log(x[:, 0] / (A * np.exp(-Q / (R_GAS * T))))
             xp = xb + 0.1 * x[:, 0]
         else:
             xb, K0, Q = PREC3[ph]
             xb = np.array(xb)
-            dg = R_GAS * T * (np.sum(xb[None, :] * np.log(x), axis=1) - (math.log(K0) - Q / (R_GAS * T)))
+            dg = self.k * R_GAS * T * (np.sum(xb[None, :] * np.log(x), axis=1) - (math.log(K0) - Q / (R_GAS * T)))
             xp = xb[None, :] + 0.1 * x
         return dg, xp
 
     def v_dnkj(self, x, T, ph):
-        a = 1e-5 * np.exp(-150000.0 / (R_GAS * T)) * MATRIX[ph]
+        a = self.k * 1e-5 * np.exp(-150000.0 / (R_GAS * T)) * MATRIX[ph]
         if self.numElements == 2:
             return a * (0.5 + 10 * x[:, 0])
         d = np.zeros((len(T), 2, 2))
@@ -467,13 +468,13 @@ class RecStub:
         return d
 
     def v_tracer(self, x, T, ph):
-        a = 2e-5 * np.exp(-140000.0 / (R_GAS * T)) * MATRIX[ph]
+        a = self.k * 2e-5 * np.exp(-140000.0 / (R_GAS * T)) * MATRIX[ph]
         cols = [a * (1 + 0.5 * np.sum(x, axis=1))] + [a * (0.3 + 0.2 * e + x[:, e]) for e in range(self.numElements - 1)]
         return np.stack(cols, axis=1)
 
     def v_ic(self, T, g, ph):
         xb, A, Q = PREC[ph]
-        xa = A * np.exp(-Q / (R_GAS * T)) * np.exp(g / (xb * R_GAS * T))
+        xa = self.k * A * np.exp(-Q / (R_GAS * T)) * np.exp(g / (xb * R_GAS * T))
         return xa, xb + 1e-6 * g + 1e-5 * (T - 900.0)
 
     def v_curv(self, x, T, ph):
@@ -483,9 +484,9 @@ class RecStub:
         cea = 0.5 * x * (1 + 1e-4 * (T - 1000.0))
         ceb = xb + 0.05 * x
         dc = (xb - cea) / (1e4 + T)
-        mc = 1e-20 * (1 + x[0]) * math.exp(T / 1000.0)
+        mc = self.k * 1e-20 * (1 + x[0]) * math.exp(T / 1000.0)
         gba = np.array([[1 + x[0], 0.1 * x[1]], [-0.2 * x[0], 0.8 + x[1]]])
-        beta = 1e3 * (1 + float(np.sum(x))) * T / 1000.0
+        beta = self.k * 1e3 * (1 + float(np.sum(x))) * T / 1000.0
         return CurvatureOutput(dc=dc, mc=mc, gba=gba, beta=beta, c_eq_alpha=cea, c_eq_beta=ceb)
 
     # ---- the interface of the real classes
@@ -679,18 +680,21 @@ def run_surrogate(case):
     trained = set()
     single_pts = (case['grid'] == 'single' and (case['nT'] == 1 and case['broadcast']))
     n_eval = 0
+    def train(q):
+        if q == 'DF':
+            surr.trainDrivingForce(xarg, Targ, precPhase=tphase, logX=case['logX'], broadcast=case['broadcast'])
+        elif q == 'DIFF':
+            surr.trainDiffusivity(xarg, Targ, phase=None, logX=case['logX'], broadcast=case['broadcast'])
+        elif q == 'IC':
+            Ti, gi, _, _ = _ic_inputs(case)
+            surr.trainInterfacialComposition(Ti, gi, precPhase=tphase, logY=case['logX'], broadcast=case['broadcast'])
+        elif q == 'CURV':
+            surr.trainCurvature(xarg, Targ, precPhase=tphase, logX=case['logX'], broadcast=case['broadcast'])
+
     # ---- training
     for q in want:
         try:
-            if q == 'DF':
-                surr.trainDrivingForce(xarg, Targ, precPhase=tphase, logX=case['logX'], broadcast=case['broadcast'])
-            elif q == 'DIFF':
-                surr.trainDiffusivity(xarg, Targ, phase=None, logX=case['logX'], broadcast=case['broadcast'])
-            elif q == 'IC':
-                Ti, gi, _, _ = _ic_inputs(case)
-                surr.trainInterfacialComposition(Ti, gi, precPhase=tphase, logY=case['logX'], broadcast=case['broadcast'])
-            elif q == 'CURV':
-                surr.trainCurvature(xarg, Targ, precPhase=tphase, logX=case['logX'], broadcast=case['broadcast'])
+            train(q)
             trained.add(q)
         except Exception as e:
             if single_pts and isinstance(e, ValueError) and 'more than 1 datapoint' in str(e):
@@ -770,9 +774,9 @@ def run_surrogate(case):
             return [np.asarray(c.beta, dtype=float)]
         return _flat_result(tuple(growth_from_curvature(np.asarray(args[0], dtype=float), args[2], args[3], args[4], c)))
 
-    def check_all(s, st, label, results):
+    def check_all(s, st, label, results, suffix='', backwards=False):
         nonlocal n_eval
-        for (g, args, kw, route, res, form) in queries(st):
+        for (g, args, kw, route, res, form) in (queries(st)[::-1] if backwards else queries(st)):
             n_eval += 1
             key = (g, form, tuple(sorted(kw.items())), route)
             a1 = tuple(np.array(a, copy=True) if hasattr(a, 'shape') else a for a in args)
@@ -826,7 +830,7 @@ def run_surrogate(case):
                         continue
                     scale = float(np.max(np.abs(v))) if v.size else 0.0
                     if not np.all(np.abs(u - v) <= 1e-6 * scale):
-                        bad('surrogate/trained/mismatch/%s' % g, '%s%s(%s form) output %d: max deviation %.3g from the training targets (scale %.3g) at the training inputs'
+                        bad('surrogate/trained/mismatch/%s%s' % (g, suffix), '%s%s(%s form) output %d: max deviation %.3g from the training targets (scale %.3g) at the training inputs'
                             % (label, g, form, j, float(np.max(np.abs(u - v))), scale))
                 if log1:
                     pass      # (a trained getter may consult the thermodynamics object; nothing is asserted about that)
@@ -869,6 +873,23 @@ def run_surrogate(case):
                         % (key[0], key[1], dev))
     finally:
         shutil.rmtree(d, ignore_errors=True)
+    # ---- the same surrogate object trained again at the same inputs over "another database" (all targets scaled): it reproduces
+    #      the data it was trained on last, also at conditions it was asked for before
+    if trained:
+        stub.k = ref.k = 1.37
+        try:
+            ok = True
+            for q in sorted(trained):
+                try:
+                    train(q)
+                except Exception as e:
+                    ok = False
+                    bad('surrogate/retrain-exception/%s' % q, 'training %s a second time raised %s: %s' % (q, type(e).__name__, str(e)[:200]))
+            if ok:
+                # (queries in reverse order: the first one repeats the condition the object was asked for last before the re-training)
+                check_all(surr, stub, 'after training a second time on other targets: ', {}, suffix='/after-retraining', backwards=True)
+        finally:
+            stub.k = ref.k = 1.0
     return {'viol': viol, 'states': n_eval, 'transitions': n_eval, 'evaluations': 1,
             'outcome': '%s/trained=%s%s' % (kind, '+'.join(sorted(trained)) or 'none', '' if reloaded else '/no-reload'),
             'nontrivial': True, 'info': {'queries': n_eval, 'trained': sorted(trained)}}
